@@ -13,6 +13,8 @@ MANIFEST_ENTRY = {
     "note": "Unbounded: ShareFileOpen, ReadShareData, WriteShareData, Abort*, Close. Bounded (labelled B in evidence): BucketWriterWrite (<=2 ranges already written). RangeMap is the /verif/shims stand-in (collections_extended is absent from the sandbox) executed symbolically = assumed contract. Directory operations are abstract (rename atomic). Histories over several storage indexes are compositions of these per-call contracts; get_shares/get_buckets listing is not under contract.",
     "technique": "contract-based deductive verification (pyvc VCs + z3/cvc5); shape-bounded symbolic execution for the range map",
 }
+MANIFEST_ENTRY["text"] += " Bounded end-to-end stand-in (run-time contract, never counted as proved): contracts/grid_http.py drives the real StorageServer through seeded histories (allocate, chunked/overlapping/conflicting/overrunning writes, abort, 31-minute timeout, reads, leases, read-test-write with failing tests, truncation, deletion, wrong write enabler) and compares it after every operation with a plain byte-array model: visible shares, bytes, space reserved for uploads in progress, mutable slots."
+MANIFEST_ENTRY["technique"] = MANIFEST_ENTRY.get("technique", "contract-based deductive verification: pre/postconditions on the real functions, VCs generated from the AST, discharged by z3/cvc5") + "; plus a bounded run-time contract: the real StorageServer against a byte-array model over seeded histories (stand-in, labelled bounded)"
 EXPLANATION = "ShareFile/BucketWriter methods against an array model of the share file."
 TRUSTED = ["file model (DESIGN 2.6)", "struct codec (DESIGN 2.6)", "RangeMap stand-in as assumed contract", "twisted DelayedCall: cancel()/reset() raise AlreadyCalled/AlreadyCancelled unless active()"]
 ASSUMPTIONS = ["termination not proved"]
@@ -470,6 +472,11 @@ class BucketWriterWrite(_BW):
     def canary(self, I, a, out):
         r = out.value
         return [("canary", z3.Not(z3.BoolVal(r) if isinstance(r, bool) else r))]
+
+
+def extra_checks(rep, tier):
+    from contracts import grid_http
+    grid_http.grid_check(rep, tier, "C22")
 
 
 def contracts(tier):
